@@ -1194,3 +1194,13 @@ M("M87", "has_tail reported although the terminating line was not re-queued",
                         directive_output.is_none()
                     };""")],
   {"C01": ["R01.6"]})
+M("N40", "module io_context renamed to ioc (via #[path]); all def paths under fs::io_context change",
+  [("src/fs/mod.rs", "mod io_context;\npub use io_context::*;", "#[path = \"io_context.rs\"]\nmod ioc;\npub use ioc::*;")],
+  {})
+M("N41", "modules tag_state / dependency / progress renamed (via #[path])",
+  [("src/core/util/mod.rs", "mod dependency;\npub use dependency::*;\nmod progress;\npub use progress::*;", "#[path = \"dependency.rs\"]\nmod depgraph;\npub use depgraph::*;\n#[path = \"progress.rs\"]\nmod prog;\npub use prog::*;"),
+   ("src/core/util/mod.rs", "mod tag_state;\npub use tag_state::*;", "#[path = \"tag_state.rs\"]\nmod tags;\npub use tags::*;")],
+  {})
+M("N42", "module abs_path renamed (via #[path]); AbsPath and TXTPP_EXT move",
+  [("src/fs/path/mod.rs", "mod abs_path;\npub use abs_path::*;", "#[path = \"abs_path.rs\"]\nmod absolute;\npub use absolute::*;")],
+  {})
